@@ -27,7 +27,7 @@ def accepted(desc):
 
 
 SEGS = ['java', 'lang', 'language', 'javax', 'langX', 'annotation', 'ref', 'reflect', 'invoke', 'a', 'v', 'g', 'l', 'n', 'j',
-        'String', 'Object', 'Foo', 'Thread$State', 'Lfoo', 'gnal', 'nav', 'jav', 'lan', 'x1', '_', 'va', 'ng', 'la', 'java$', 'Ljava', 'util', 'io', 'android', 'R$id']
+        'String', 'Object', 'Foo', 'Thread$State', 'Lfoo', 'URL', 'MySQL', 'LL', 'L', 'lang2', 'langx', 'gnal', 'nav', 'jav', 'lan', 'x1', '_', 'va', 'ng', 'la', 'java$', 'Ljava', 'util', 'io', 'android', 'R$id']
 
 
 def gen_desc(rng):
